@@ -27,6 +27,16 @@ TOG = dict(MaskBeforeReduce=True, Sanitize=True, LeadingPadSkips=False)
 SUM_METRICS = ('tok_count', 'seq_count', 'confusion')
 
 
+
+# ONE forward function for every model of this check (as a user has one network and several metric sets): models that
+# differ only in their eval_metrics are different models
+def _model_init(rng_):
+  return None
+
+
+def _model_apply(params, batch):
+  return batch['pred']
+
 def components(c, stat, C):
   """Spec statistic -> list of [a, w] components (row-major for matrices)."""
   m = c['m']
@@ -82,7 +92,7 @@ def worker_main():
   out = []
   for g in job['groups']:
     metric = c14.make_metric(metrics, g['c0'], job['C'])
-    model = models.Model(init=lambda rng_: None, apply_for_train=None, apply_for_eval=lambda params, batch: batch['pred'], train_loss=None,
+    model = models.Model(init=_model_init, apply_for_train=None, apply_for_eval=_model_apply, train_loss=None,
                          eval_metrics={'m': metric})
     rows = [{k: np.array(v, np.int32 if k != 'pred' else np.float32) for k, v in r.items()} for r in g['rows']]
     clients = [(b'c%d' % i, build_batches(rows, lay, garbage_row=i, nan_pad=False, omit_full_mask=g['omit_full_mask'])) for i, lay in enumerate(g['layouts'])]
@@ -200,7 +210,7 @@ def run(ctx):
       total_layouts += len(layouts)
       rng.shuffle(layouts)
       single = 'scores' in c0
-      model = models.Model(init=lambda rng_: None, apply_for_train=None, apply_for_eval=lambda params, batch: batch['pred'],
+      model = models.Model(init=_model_init, apply_for_train=None, apply_for_eval=_model_apply,
                            train_loss=None, eval_metrics={'m': metric})
       evaluator = models.ModelEvaluator(model)
 
@@ -290,7 +300,7 @@ def run(ctx):
   nd = 0
   for g in pmap_groups[::2]:
     metric = c14.make_metric(metrics, g['c0'], C)
-    model = models.Model(init=lambda rng_: None, apply_for_train=None, apply_for_eval=lambda params, batch: batch['pred'], train_loss=None,
+    model = models.Model(init=_model_init, apply_for_train=None, apply_for_eval=_model_apply, train_loss=None,
                          eval_metrics={'m': metric})
     rows_g = [{k: np.array(v, np.int32 if k != 'pred' else np.float32) for k, v in r_.items()} for r_ in g['rows']]
     clients_g = [(b'c%d' % i, build_batches(rows_g, lay, garbage_row=i, omit_full_mask=g['omit_full_mask'])) for i, lay in enumerate(g['layouts'])]
@@ -417,7 +427,7 @@ def run(ctx):
   xm = {'xent': (metrics.CrossEntropyLoss(), False), 'seq_tok_xent': (metrics.SequenceTokenCrossEntropyLoss(), True),
         'seq_xent': (metrics.SequenceCrossEntropyLoss(), True), 'seq_tok_xent_pp': (metrics.SequenceTokenCrossEntropyLoss(per_position=True), True)}
   for name, (metric, seq) in xm.items():
-    model = models.Model(init=lambda rng_: None, apply_for_train=None, apply_for_eval=lambda params, batch: batch['pred'],
+    model = models.Model(init=_model_init, apply_for_train=None, apply_for_eval=_model_apply,
                          train_loss=None, eval_metrics={'m': metric})
     for trial in range(30 if big else 8):
       n = rng.randint(1, 5)
@@ -473,7 +483,7 @@ def run(ctx):
     c0 = groups[keys[0]][0]['c']
     all_metrics['d:' + m_] = (c14.make_metric(metrics, c0, C), 'scores' not in c0)
   for name, (metric, seq) in sorted(all_metrics.items()):
-    model = models.Model(init=lambda rng_: None, apply_for_train=None, apply_for_eval=lambda params, batch: batch['pred'],
+    model = models.Model(init=_model_init, apply_for_train=None, apply_for_eval=_model_apply,
                          train_loss=None, eval_metrics={'m': metric})
     for trial in range(6 if big else 3):
       shp = (3, 2) if seq else (3,)
